@@ -1,0 +1,10 @@
+//go:build verif
+
+package vgirpc
+
+// Verification hooks (build tag "verif") for the external fetcher. Add-only;
+// nothing here is compiled into normal builds.
+
+// VerifC31RedactURL is the redaction applied to URLs before they are put into
+// error texts.
+func VerifC31RedactURL(rawURL string) string { return redactExternalURL(rawURL) }
